@@ -236,6 +236,9 @@ def check(ctx):
             break
         live = live[:bad_i - 1] + live[bad_i:]
         vlib.write_ndjson(trace, live)
+    if not ctx.violations and ctx.notes.get("selfscan_index_failed"):
+        raise vlib.Inconclusive("sfw index failed on analysable files although check and scan account for them: %s"
+                                % ctx.notes["selfscan_index_failed"][:3])
     good = next(e for e in evs if e["ev"] == "check")
     ctx.sample({"target": good["target"], "must": good["must"][:8], "entries": [{k: x[k] for k in ("file", "error")} for x in good["entries"]][:8]})
     # canary: drop one listed function
@@ -269,7 +272,10 @@ def selfscan(ctx, sfw, root, t, files, oracle_all):
         if rc != 0 and not oracle_all[os.path.join(root, rel)]["funcs"]:
             continue        # a file that declares no function: nothing of it has to be found again
         if rc != 0:
-            raise vlib.Inconclusive("sfw index %s failed: %s" % (rel, err[-300:]))
+            # the check / scan clauses on the same tree decide first (a file the collector drops fails here too);
+            # only if they accept everything is this reported as a problem of the run
+            ctx.notes.setdefault("selfscan_index_failed", []).append("%s: %s" % (rel, err.strip()[-160:]))
+            continue
         bydir.setdefault(os.path.dirname(rel), []).append(i)
     expected = []
     for i, rel in enumerate(files):
